@@ -970,24 +970,38 @@ package nutsdb
 //@ func BPTree.FindLeaf
 //@   assumed descent to the leaf responsible for a key (bounded stand-in BS1)
 //@   requires t != nil
+//@   ensures result != nil ==> result.isLeaf
 //@   modifies nothing
 //@   pure
 
+//@ spec func recOK(r *Record) bool = r != nil && r.H != nil && r.H.meta != nil && r.H.dataPos < 9223372036854775808
+//@ spec func ptrsOK(pointers []interface{}, m int) bool = forall k int :: 0 <= k && k < m ==> typeis(pointers[k], Record) && recOK(ifaceval(pointers[k], Record))
+
+//@ spec func leafRecs(t *BPTree) bool = forall n *Node, k int :: n != nil && n.isLeaf ==> allocated(n.pointers) &&
+//@        (0 <= k && k < n.KeysNum ==> typeis(n.pointers[k], Record) && recOK(ifaceval(n.pointers[k], Record)))
+//@ spec func leafChain(t *BPTree) bool = forall n *Node :: n != nil && n.isLeaf && typeis(n.pointers[order - 1], Node) && ifaceval(n.pointers[order - 1], Node) != nil ==>
+//@        ifaceval(n.pointers[order - 1], Node).isLeaf
+//@ spec func nodesOK(t *BPTree) bool = leafRecs(t) && leafChain(t)
+
 //@ func getRecordWrapper
-//@   requires 0 <= numFound && numFound <= len(pointers)
+//@   requires 0 <= numFound && numFound <= len(pointers) && ptrsOK(pointers, numFound)
 //@   ensures[C03] numFound > 0 ==> err == nil && len(records) == numFound
+//@   ensures[C20] numFound > 0 ==> recsOK(records)
 //@   ensures[C03] numFound == 0 ==> err == ErrScansNoResult && records == nil
 //@   modifies nothing
 //@   loops 1
 //@   loop 1: modifies elems(records)
 //@   loop 1: invariant 0 <= i && i <= numFound
 //@   loop 1: invariant len(records) == i
-//@   loop 1: invariant numFound == old(numFound)
+//@   loop 1: invariant numFound == old(numFound) && pointers == old(pointers)
 //@   loop 1: invariant fresh(records)
+//@   loop 1: invariant forall k int :: 0 <= k && k < i ==> recOK(records[k])
+//@   safety[C20] panics
 
 //@ func BPTree.PrefixScan
-//@   requires t != nil
+//@   requires t != nil && nodesOK(t)
 //@   ensures[C03] err == nil && limitNum > 0 ==> len(records) <= limitNum
+//@   ensures[C20] err == nil ==> recsOK(records)
 //@   ensures[C03] off >= 0 && (offsetNum >= 0 ==> off <= offsetNum)
 //@   ensures[C03] err == nil && offsetNum >= 0 ==> off == offsetNum
 //@   modifies nothing
@@ -1001,6 +1015,11 @@ package nutsdb
 //@   loop 2: invariant limitNum > 0 && numFound == limitNum ==> !scanFlag
 //@   loop 2: invariant sinceLoop(keys)
 //@   loop 2: invariant sinceLoop(pointers)
+//@   loop 2: invariant[C20] 0 <= j && ptrsOK(pointers, numFound)
+//@   loop 2: invariant[C20] n != nil ==> n.isLeaf
+//@   loop 2: invariant[C20] leafRecs(t)
+//@   loop 2: invariant[C20] leafChain(t)
+//@   loop 3: invariant[C20] 0 <= i && n.isLeaf && nodesOK(t) && ptrsOK(pointers, numFound)
 //@   loop 3: modifies elems(keys), elems(pointers)
 //@   loop 3: invariant prefix == old(prefix) && offsetNum == old(offsetNum) && limitNum == old(limitNum) && 0 <= coff && (offsetNum >= 0 ==> coff <= offsetNum) &&
 //@        0 <= numFound && numFound == len(keys) && numFound == len(pointers) && (limitNum > 0 ==> numFound < limitNum || (numFound == limitNum && !scanFlag)) && (numFound > 0 ==> coff >= offsetNum) &&
@@ -1009,12 +1028,11 @@ package nutsdb
 //@   branch 7: iff[C01,C03] hasPrefix(string(n.Keys[i]), string(prefix))
 //@   at stored keys: assert[C01,C03] len(keys) > 0 ==> keys[len(keys) - 1] == n.Keys[i] && hasPrefix(string(n.Keys[i]), string(prefix)) && coff >= offsetNum
 //@   at stored pointers: assert[C01,C03] len(pointers) > 0 ==> pointers[len(pointers) - 1] == n.pointers[i]
-//@   at stored coff: assert[C03] coff > 0 ==> liveRec(ifaceval(n.pointers[i], Record))
-//@   at stored numFound: assert[C03] numFound > 0 ==> liveRec(ifaceval(n.pointers[i], Record))
 
 //@ func BPTree.PrefixSearchScan
-//@   requires t != nil
+//@   requires t != nil && nodesOK(t)
 //@   ensures[C03] err == nil && limitNum > 0 ==> len(records) <= limitNum
+//@   ensures[C20] err == nil ==> recsOK(records)
 //@   ensures[C03] off >= 0 && (offsetNum >= 0 ==> off <= offsetNum)
 //@   modifies nothing
 //@   loops 3
@@ -1024,6 +1042,11 @@ package nutsdb
 //@   loop 2: invariant prefix == old(prefix) && offsetNum == old(offsetNum) && limitNum == old(limitNum) && rgx == pre(rgx) && rgx != nil && 0 <= coff && (offsetNum >= 0 ==> coff <= offsetNum) &&
 //@        0 <= numFound && numFound == len(keys) && numFound == len(pointers) && (limitNum > 0 ==> numFound <= limitNum) && (numFound > 0 ==> coff >= offsetNum) &&
 //@        (limitNum > 0 && numFound == limitNum ==> !scanFlag) && sinceLoop(keys) && sinceLoop(pointers)
+//@   loop 2: invariant[C20] 0 <= j && ptrsOK(pointers, numFound)
+//@   loop 2: invariant[C20] n != nil ==> n.isLeaf
+//@   loop 2: invariant[C20] leafRecs(t)
+//@   loop 2: invariant[C20] leafChain(t)
+//@   loop 3: invariant[C20] 0 <= i && n.isLeaf && nodesOK(t) && ptrsOK(pointers, numFound)
 //@   loop 3: modifies elems(keys), elems(pointers)
 //@   loop 3: invariant prefix == old(prefix) && offsetNum == old(offsetNum) && limitNum == old(limitNum) && rgx == pre(rgx) && rgx != nil && 0 <= coff && (offsetNum >= 0 ==> coff <= offsetNum) &&
 //@        0 <= numFound && numFound == len(keys) && numFound == len(pointers) && (limitNum > 0 ==> numFound < limitNum || (numFound == limitNum && !scanFlag)) && (numFound > 0 ==> coff >= offsetNum) &&
@@ -1041,19 +1064,25 @@ package nutsdb
 //@ func Tx.prefixSearchScanByHintBPTSparseIdx
 //@   assumed sparse-mode prefix+regexp scan (not yet under contract)
 //@   modifies lastReadOff
+//@ func Tx.rangeScanOnDisk
+//@   assumed sparse-mode range scan over the sealed segments (not yet under contract)
+//@   modifies lastReadOff
+//@ func processEntriesScanOnDisk
+//@   assumed sparse-mode merge of per-segment scan results (not yet under contract)
+//@   modifies nothing
 //@ func Tx.getAllByHintBPTSparseIdx
 //@   assumed sparse-mode GetAll (not yet under contract)
 //@   modifies lastReadOff
 
 //@ func Tx.PrefixScan
-//@   requires txOK(tx) && (tx.db != nil ==> treesOK(tx.db))
+//@   requires txOK(tx) && (tx.db != nil ==> treesOK(tx.db) && nodesOK(nil))
 //@   ensures[C12,C20] tx.db == nil ==> err == ErrTxClosed
 //@   ensures[C03] err == nil && tx.db.opt.EntryIdxMode != HintBPTSparseIdxMode ==> len(es) > 0 && (limitNum > 0 ==> len(es) <= limitNum)
 //@   ensures[C03] err != nil && tx.db != nil && tx.db.opt.EntryIdxMode != HintBPTSparseIdxMode ==> es == nil
 //@   modifies[C03,C12] lastReadOff
 //@   safety[C20] panics
 //@ func Tx.PrefixSearchScan
-//@   requires txOK(tx) && (tx.db != nil ==> treesOK(tx.db))
+//@   requires txOK(tx) && (tx.db != nil ==> treesOK(tx.db) && nodesOK(nil))
 //@   ensures[C12,C20] tx.db == nil ==> err == ErrTxClosed
 //@   ensures[C03] err == nil && tx.db.opt.EntryIdxMode != HintBPTSparseIdxMode ==> len(es) > 0 && (limitNum > 0 ==> len(es) <= limitNum)
 //@   modifies[C03,C12] lastReadOff
@@ -1065,6 +1094,11 @@ package nutsdb
 //@   modifies[C01,C12] lastReadOff
 //@   safety[C20] panics
 //@ func Tx.RangeScan
-//@   requires txOK(tx) && (tx.db != nil ==> treesOK(tx.db))
+//@   requires txOK(tx) && (tx.db != nil ==> treesOK(tx.db) && tx.db.ActiveBPTreeIdx != nil)
 //@   ensures[C12,C20] tx.db == nil ==> err == ErrTxClosed
-//@   modifies[C01,C12] everything
+//@   modifies[C01,C12] lastReadOff
+//@   safety[C20] panics
+//@   loops 1
+//@   loop 1: modifies lastReadOff
+//@   loop 1: invariant -1 <= rangeindex && rangeindex < len(records) && tx == old(tx) && tx.db == old(tx.db) && records == pre(records) && recsOK(records) &&
+//@        (arr(es) == arr(pre(es)) || sinceLoop(es))
